@@ -70,6 +70,18 @@ def as_flavour(recipe, flavour):
     return r
 
 
+def build(recipe, flavour, extra):
+    """Materialise a flavour, then set extra attributes through the API (parsers lower-case names, the API does not)."""
+    doc = trees.materialise(as_flavour(recipe, flavour))
+    if extra:
+        by_n = {e.get('data-n'): e for e in doc.all_elements()}
+        for idx, name, value in extra:
+            e = by_n.get(str(idx))
+            if e is not None and name not in e.attrs:
+                e.attrs[name] = value
+    return doc
+
+
 def gen_case(ch, tier):
     recipe = trees.gen_recipe(ch, kinds=('html-api',), names=NAMES, attr_names=ATTR_NAMES, attr_values=ATTR_VALUES,
                               ids=('i1', 'I1', 'i2'), classes=('k', 'K', 'm'), max_elems=9, upper_names=False,
@@ -86,12 +98,15 @@ def gen_case(ch, tier):
     for node in recipe['top']:
         number(node)
     base = ch.pick(FLAVOURS)
-    doc = trees.materialise(as_flavour(recipe, base))
+    extra = []
+    for _ in range(ch.i(0, 2)):
+        extra.append([ch.i(0, max(0, n[0] - 1)), ch.pick(('data-Role', 'viewBox', 'TITLE', 'Lang', 'dataX')), ch.pick(ATTR_VALUES)])
+    doc = build(recipe, base, extra)
     if not doc.all_elements():
-        doc = trees.materialise(as_flavour(recipe, 'html-api'))
+        doc = build(recipe, 'html-api', extra)
     g = witness.Gen(ch, doc, CFG)
     sel = g.selector_list()
-    return {'recipe': recipe, 'sel': sel, 'base': base}
+    return {'recipe': recipe, 'sel': sel, 'base': base, 'extra': extra}
 
 
 def evaluate(case):
@@ -100,7 +115,7 @@ def evaluate(case):
     text = S.render_list(case['sel'])
     answers = {}
     for fl in FLAVOURS:
-        doc = trees.materialise(as_flavour(case['recipe'], fl))
+        doc = build(case['recipe'], fl, case.get('extra', []))
         ctx = R.Ctx(doc.target)
         if (ctx.is_xml, ctx.is_html) != EXPECT[fl]:
             raise common.HarnessError(f'flavour {fl} materialised as is_xml={ctx.is_xml} is_html={ctx.is_html}')
